@@ -307,6 +307,10 @@ def _install_adjacent_hook():
 
 _install_adjacent_hook()
 
+def _deep_tuple(x):
+    return tuple(_deep_tuple(y) for y in x) if isinstance(x, (list, tuple)) else x
+
+
 _CROSS_PAIRS = [(i, j) for i in range(6) for j in range(i + 1, 6) if i // 2 != j // 2]
 _SORT_STATE = {}
 
@@ -352,9 +356,9 @@ class _SortPairing:
         for (i, j), c in zip(_CROSS_PAIRS, tests):
             other = ({0, 1, 2} - {i // 2, j // 2}).pop()
             yield f'pair{i}{j}:tested-against-the-remaining-listed-pair', \
-                c['args'][0] is surfs[i][0] and c['args'][1] is surfs[j][0] \
-                and {id(c['args'][2]), id(c['args'][3])} == {id(surfs[2 * other]), id(surfs[2 * other + 1])}
-            yield f'pair{i}{j}:result-kept', adj[(i, j)] is c['result'] or adj[(i, j)] == c['result']
+                tuple(c['args'][0]) == surfs[i][0] and tuple(c['args'][1]) == surfs[j][0] \
+                and {_deep_tuple(c['args'][2]), _deep_tuple(c['args'][3])} == {surfs[2 * other], surfs[2 * other + 1]}
+            yield f'pair{i}{j}:result-kept', adj[(i, j)] == c['result']
 
 
 @contract(None, props=['C07'], name='lemma.hexagon-adjacency')
@@ -388,6 +392,39 @@ class _HexLemma:
             yield 'adjacent-sides:common-point-strictly-between-the-remaining-pair', inside
         else:
             yield 'non-adjacent-sides:common-point-not-strictly-between-the-remaining-pair', Not(inside)
+
+
+@contract(None, props=['C07'], name='lemma.common-line-of-two-side-planes')
+class _LineLemma:
+    """Two planes parallel to the unit axis d, with independent normals, through the point P: every point of both
+    planes is P + h d, and a unit vector orthogonal to both normals is d or -d.  (What pointInPlaneIntersection is
+    proved to return for two adjacent side planes is therefore what the [given-adjacency] contract assumes of the
+    adjacency dictionary: a point of the common edge anywhere along the axis, the axis direction up to sign.)
+    Three steps: a vector orthogonal to both normals is parallel to d (used for X - P and for D); parallel unit
+    vectors are equal up to sign."""
+    budget = 90
+
+    def cases(S):
+        for k in range(3):
+            yield f'orthogonal-to-both-normals-is-parallel-to-the-axis[{k}]', {
+                'step': k, 'd': S.reals('d1 d2 d3'), 'n': S.reals('n1 n2 n3'), 'm': S.reals('m1 m2 m3'),
+                'v': S.reals('v1 v2 v3')}
+        yield 'parallel-unit-vectors', {'step': 3, 'd': S.reals('d1 d2 d3'), 'n': None, 'm': None, 'v': S.reals('D1 D2 D3')}
+
+    def call(step, d, n, m, v):
+        return None
+
+    def requires(step, d, n, m, v):
+        if step == 3:
+            return And(dot(d, d) == 1, dot(v, v) == 1, *[c == 0 for c in cross(v, d)])
+        c = cross(n, m)
+        return And(dot(d, d) == 1, dot(n, d) == 0, dot(m, d) == 0, dot(c, c) > 0, dot(v, n) == 0, dot(v, m) == 0)
+
+    def ensures(result, step, d, n, m, v):
+        if step == 3:
+            yield 'equal-up-to-sign', Or(And(*[a == b for a, b in zip(v, d)]), And(*[a == -b for a, b in zip(v, d)]))
+        else:
+            yield 'component-of-the-cross-product-vanishes', cross(v, d)[step] == 0
 
 
 def _sub2(a, b):
@@ -460,8 +497,11 @@ ASSUMPTIONS = {'C07': [
     'not depend on where along the axis the point is taken, and it is invariant under rigid motions (reduction not '
     'machine-checked; cross-checked by the sampled end-to-end contract in random orientations)',
     'the cross-section of the base cell is a convex hexagon whose opposite sides are parallel and equal (what a '
-    'hexagonal lattice element is); the link between the adjacency reported by hexSortSides and the adjacency handed to '
-    'the [given-adjacency] contract is by the statement of the two contracts, not by a machine-checked composition',
+    'hexagonal lattice element is); the adjacency dictionary handed to the [given-adjacency] contract (None for '
+    'non-adjacent sides, otherwise a point of the common edge anywhere along the axis and the axis direction up to '
+    'sign) is what the contracts of hexSortSides, areHexSidesAdjacent and pointInPlaneIntersection yield together with '
+    'the two lemmas (hexagon-adjacency, common-line-of-two-side-planes); that composition is by the statements of '
+    'the contracts, not machine-checked as one obligation',
     'develop_lattice for LAT=2: discharged modular contract (c06, base vectors arbitrary) plus the bounded hexlattice '
     'deck sweep (prisms parallel to z, 2-D index ranges)',
 ]}
